@@ -48,6 +48,7 @@ func runE2E(c *rig.Ctx, cs Case) (out e2eOut, f *failure) {
 		}
 		raw := []byte("GET /api/v1/namespaces/default/pods HTTP/1.1\r\nHost: c06.local\r\nAuthorization: Bearer tok\r\nAccept: application/json\r\nConnection: close\r\n\r\n")
 		var mu sync.Mutex
+		sequential := true
 		one := func() int {
 			resp, err := g.RoundTrip(raw, "GET", 20*time.Second)
 			if err != nil {
@@ -65,8 +66,14 @@ func runE2E(c *rig.Ctx, cs Case) (out e2eOut, f *failure) {
 				if resp.Header.Get("Retry-After") == "" && out.Bad == "" {
 					out.Bad = "a 429 answer carries no Retry-After header"
 				}
-			} else if resp.StatusCode != 200 && out.Bad == "" {
-				out.Bad = fmt.Sprintf("a request was answered %d (neither forwarded nor 429): %.200s", resp.StatusCode, resp.Body)
+			} else if resp.StatusCode != 200 {
+				// Under the concurrent load of the second phase an upstream dial can fail for reasons of the rig
+				// (ports, descriptors): only the quiet sequential phase is judged strictly.
+				if sequential && out.Bad == "" {
+					out.Bad = fmt.Sprintf("a request was answered %d (neither forwarded nor 429): %.200s", resp.StatusCode, resp.Body)
+				} else if !sequential && rigErr == "" {
+					rigErr = fmt.Sprintf("status %d under load", resp.StatusCode)
+				}
 			}
 			return resp.StatusCode
 		}
@@ -80,6 +87,9 @@ func runE2E(c *rig.Ctx, cs Case) (out e2eOut, f *failure) {
 			out.Sent++
 		}
 		// then concurrent clients for a while
+		mu.Lock()
+		sequential = false
+		mu.Unlock()
 		var sent int64
 		var wg sync.WaitGroup
 		end := time.Now().Add(time.Duration(cs.DurMs) * time.Millisecond)
@@ -90,6 +100,7 @@ func runE2E(c *rig.Ctx, cs Case) (out e2eOut, f *failure) {
 				for time.Now().Before(end) {
 					one()
 					atomic.AddInt64(&sent, 1)
+					time.Sleep(2 * time.Millisecond) // keep the number of short-lived connections moderate
 				}
 			}()
 		}
